@@ -4,6 +4,10 @@ MCKeyNames == <<"delta", "tol">>
 MCParams == {"cA", "cB"}
 MCStmSteps == {"n1", "n2"}
 NoHistView == <<per, lastC, mc, res, last>>
+\* exhaustive verification runs use several workers: TLC's parallel breadth-first search does not reach a
+\* state first through its SHORTEST history, so with a history-length constraint the history length must be
+\* part of the state identity (otherwise which successors are cut off depends on the schedule)
+DepthView == <<NoHistView, Len(hist)>>
 EmitState == (Len(hist) <= MaxLen) => PrintT(ToJson(hist))
 EmitWalk == (Len(hist) = MaxLen) => PrintT(ToJson(hist))
 =============================================================================
